@@ -27,35 +27,70 @@ Proof.
   unfold rd_triple. rd. reflexivity.
 Qed.
 
+(* a count followed by the values (no record for the values when there is none) *)
+Lemma reads_counted tc tv ds : Forall wf_dbl ds ->
+  reads rd_counted (r_int tc (lenZ ds) :: (if null ds then [] else [r_vdbl tv ds])) ds.
+Proof.
+  intros Hw. unfold rd_counted. rd.
+  assert (Hn : (lenZ ds <? 0) = false) by (apply Z.ltb_ge; unfold lenZ; lia). rewrite Hn.
+  destruct ds as [|d ds]; cbn [null].
+  - cbn [lenZ length Z.of_nat Z.ltb Z.compare]. apply reads_ret.
+  - assert (Hp : (0 <? lenZ (d :: ds)) = true) by (apply Z.ltb_lt; unfold lenZ; simpl length; lia).
+    rewrite Hp. apply reads_vdbl; auto. discriminate.
+Qed.
+
+Section Dialect.
+Variable v4 : bool.
+
 Definition wf_vdir (ndim nvar calcul : Z) (d : vdir) : Prop :=
-  vd_regular d = true /\ vd_grincr d = [] /\
+  vd_grincr d = [] /\
   wf_dbl (vd_tolcode d) /\ wf_dbl (vd_dpas d) /\ wf_dbl (vd_toldist d) /\ wf_dbl (vd_tolang d) /\
   cap90 (vd_tolang d) = vd_tolang d /\
   lenZ (vd_codir d) = ndim /\ Forall wf_dbl (vd_codir d) /\ vd_codir d <> [] /\
+  (if v4 then wf_dbl (vd_bench d) /\ wf_dbl (vd_cylrad d) /\ Forall wf_dbl (vd_breaks d)
+   else vd_bench d = None /\ vd_cylrad d = None /\ vd_idate d = 0 /\ vd_breaks d = []) /\
   lenZ (vd_res d) = lag_total calcul (vd_npas d) * (nvar * (nvar + 1) / 2) /\ Forall wf_triple (vd_res d).
 
-Lemma reads_vdir ndim nvar calcul ta0 d :
-  wf_vdir ndim nvar calcul d -> reads (rd_vdir ndim nvar 3 calcul ta0) (ser_vdir d) (d, vd_tolang d).
+Lemma reads_vcomp d :
+  (if v4 then wf_dbl (vd_bench d) /\ wf_dbl (vd_cylrad d) /\ Forall wf_dbl (vd_breaks d)
+   else vd_bench d = None /\ vd_cylrad d = None /\ vd_idate d = 0 /\ vd_breaks d = []) ->
+  reads (rd_vcomp v4 (if v4 then 4 else 3)) (ser_vcomp v4 d) (vd_bench d, vd_cylrad d, vd_idate d, vd_breaks d).
 Proof.
-  destruct d as [reg npas oc tc dp td gi ta cd res]. unfold wf_vdir.
-  cbn [vd_regular vd_npas vd_optcode vd_tolcode vd_dpas vd_toldist vd_grincr vd_tolang vd_codir vd_res].
-  intros (-> & -> & H1 & H2 & H3 & H4 & Hcap & Hlen & Hcd & Hne & Hres & Hw).
+  unfold rd_vcomp, ser_vcomp. destruct v4; cbn [andb Z.leb Z.compare Pos.compare Pos.compare_cont].
+  - intros (H1 & H2 & H3). rewrite <- !app_comm_cons, app_nil_l. rd.
+    rewrite <- (app_nil_r (_ :: _)). eapply reads_bind; [apply reads_counted; auto|]. apply reads_ret.
+  - intros (-> & -> & -> & ->). apply reads_ret.
+Qed.
+
+Lemma reads_vdir ndim nvar calcul ta0 d :
+  wf_vdir ndim nvar calcul d -> reads (rd_vdir v4 ndim nvar (if v4 then 4 else 3) calcul ta0) (ser_vdir v4 d) (d, vd_tolang d).
+Proof.
+  destruct d as [npas oc tc dp td gi ta cd be cy idt br res]. unfold wf_vdir.
+  cbn [vd_npas vd_optcode vd_tolcode vd_dpas vd_toldist vd_grincr vd_tolang vd_codir vd_bench vd_cylrad vd_idate vd_breaks vd_res].
+  intros (-> & H1 & H2 & H3 & H4 & Hcap & Hlen & Hcd & Hne & Hcomp & Hres & Hw).
   unfold rd_vdir, ser_vdir.
-  cbn [vd_regular vd_npas vd_optcode vd_tolcode vd_dpas vd_toldist vd_grincr vd_tolang vd_codir vd_res null negb b2z].
+  cbn [vd_npas vd_optcode vd_tolcode vd_dpas vd_toldist vd_grincr vd_tolang vd_codir vd_bench vd_cylrad vd_idate vd_breaks vd_res null negb b2z].
   rewrite <- !app_comm_cons, app_nil_l. rd.
   cbn [z2b Z.eqb negb].
-  (* tolerance on angle, then the direction coefficients written one by one and read as one line *)
   rewrite app_comm_cons. eapply reads_bind.
   { rd. rewrite <- (app_nil_r (map _ cd ++ _)). eapply reads_bind; [|apply reads_ret].
     rewrite <- Hlen. apply reads_vdbl_untitled; auto. }
-  cbv beta iota. apply reads_com_l. rewrite app_nil_l.
+  cbv beta iota.
+  eapply reads_bind.
+  { apply (reads_vcomp {| vd_npas := npas; vd_optcode := oc; vd_tolcode := tc; vd_dpas := dp; vd_toldist := td; vd_grincr := [];
+                          vd_tolang := ta; vd_codir := cd; vd_bench := be; vd_cylrad := cy; vd_idate := idt; vd_breaks := br; vd_res := res |}).
+    exact Hcomp. }
+  cbn [vd_bench vd_cylrad vd_idate vd_breaks]. cbv beta iota.
+  apply reads_com_l. rewrite app_nil_l.
+  assert (Hz : z2b (if v4 then 4 else 3) = true) by (destruct v4; reflexivity). rewrite Hz.
   rewrite <- (app_nil_r (flat_map _ res)). eapply reads_bind.
   { apply reads_rrepZ; auto. intros t Ht. apply reads_triple. rewrite Forall_forall in Hw; auto. }
   apply reads_ret_eq. rewrite Hcap. reflexivity.
 Qed.
 
 Lemma reads_vdirs ndim nvar calcul ds : forall ta0,
-  Forall (wf_vdir ndim nvar calcul) ds -> reads (rd_vdirs (length ds) ndim nvar 3 calcul ta0) (flat_map ser_vdir ds) ds.
+  Forall (wf_vdir ndim nvar calcul) ds ->
+  reads (rd_vdirs v4 (length ds) ndim nvar (if v4 then 4 else 3) calcul ta0) (flat_map (ser_vdir v4) ds) ds.
 Proof.
   induction ds as [|d ds IH]; intros ta0 H; cbn [flat_map rd_vdirs length].
   - apply reads_ret.
@@ -67,16 +102,20 @@ Definition wf_Vario (o : vario) : Prop :=
   wf_dbl (vr_scale o) /\
   vr_nvar o = lenZ (vr_names o) /\
   lenZ (vr_vars o) = vr_nvar o /\ Forall (fun row => lenZ row = vr_nvar o /\ Forall wf_dbl row) (vr_vars o) /\
+  (if v4 then Forall wf_dbl (vr_dates o) else vr_dates o = []) /\
   Forall (wf_vdir (vr_ndim o) (vr_nvar o) (vr_calcul o)) (vr_dirs o).
 
-Lemma Vario_reads o : wf_Vario o -> reads deser_Vario (ser_Vario o) o.
+Lemma Vario_reads o : wf_Vario o -> reads (deser_Vario v4) (ser_Vario v4 o) o.
 Proof.
-  destruct o as [ndim nvar scale calcul names vars dirs]. unfold wf_Vario.
-  cbn [vr_ndim vr_nvar vr_scale vr_calcul vr_names vr_vars vr_dirs].
-  intros (Hs & -> & Hvl & Hvars & Hdirs).
-  unfold deser_Vario, ser_Vario. cbn [vr_ndim vr_nvar vr_scale vr_calcul vr_names vr_vars vr_dirs].
+  destruct o as [ndim nvar scale calcul dates names vars dirs]. unfold wf_Vario.
+  cbn [vr_ndim vr_nvar vr_scale vr_calcul vr_dates vr_names vr_vars vr_dirs].
+  intros (Hs & -> & Hvl & Hvars & Hdates & Hdirs).
+  unfold deser_Vario, ser_Vario. cbn [vr_ndim vr_nvar vr_scale vr_calcul vr_dates vr_names vr_vars vr_dirs].
   rewrite <- !app_comm_cons, app_nil_l. rd.
-  cbn [Z.leb Z.compare Pos.compare Pos.compare_cont Z.eqb Pos.eqb z2b negb].
+  assert (F2 : (2 <=? (if v4 then 4 else 3)) = true) by (destruct v4; reflexivity).
+  assert (F3 : (3 <=? (if v4 then 4 else 3)) = true) by (destruct v4; reflexivity).
+  assert (Fz : z2b (if v4 then 4 else 3) = true) by (destruct v4; reflexivity).
+  rewrite F2, F3, Fz.
   replace (Z.to_nat (lenZ names)) with (length names) by (unfold lenZ; rewrite Nat2Z.id; reflexivity).
   rewrite map_nth_seq.
   eapply reads_bind; [apply reads_str_list; reflexivity|].
@@ -84,14 +123,18 @@ Proof.
   eapply reads_bind.
   { apply reads_rrepZ; auto. intros row Hrow. rewrite Forall_forall in Hvars. destruct (Hvars _ Hrow) as [Hl Hw].
     apply reads_com_r. apply reads_dbl_list; auto. }
-  cbn [Z.leb Z.compare Pos.compare Pos.compare_cont]. rd. rewrite app_nil_l.
+  rd. rewrite app_nil_l.
+  eapply reads_bind with (a := dates).
+  { destruct v4; cbn [andb Z.leb Z.compare Pos.compare Pos.compare_cont].
+    - apply reads_counted; auto.
+    - subst dates. apply reads_ret. }
   rewrite <- (app_nil_r (flat_map _ dirs)). eapply reads_bind.
   { replace (Z.to_nat (lenZ dirs)) with (length dirs) by (unfold lenZ; rewrite Nat2Z.id; reflexivity).
     apply reads_vdirs; auto. }
   apply reads_ret_eq. reflexivity.
 Qed.
 
-Lemma good_Vario o : forallb good_word (vr_names o) = true -> forallb good_rec (ser_Vario o) = true.
+Lemma good_Vario o : forallb good_word (vr_names o) = true -> forallb good_rec (ser_Vario v4 o) = true.
 Proof.
   intros Hn. unfold ser_Vario. good.
   - apply good_r_str; [reflexivity|].
@@ -99,6 +142,7 @@ Proof.
     + rewrite forallb_forall in Hn. apply Hn; auto.
     + reflexivity.
   - apply forallb_flat_map_true. intros row _. good.
-  - apply forallb_flat_map_true. intros d _. unfold ser_vdir. good.
-    all: apply forallb_flat_map_true; intros [[a b] c] _; unfold ser_triple; good.
+  - apply forallb_flat_map_true. intros d _. unfold ser_vdir, ser_vcomp. good.
+    all: try (apply forallb_flat_map_true; intros [[a b] c] _; unfold ser_triple; good).
 Qed.
+End Dialect.
